@@ -270,6 +270,7 @@ def rule_stale_copies(ctx, rule='R10.10'):
     called between the copy and a later use of the local, the use sees the old values: SEI would rotate with the
     sin/tan constants of the previous step size for the first half step after dt changed - or changed sign."""
     from . import c04
+    from .. import normal
     tus = cfront.load_tus()
     writes = {}
     defs = {}
@@ -300,6 +301,16 @@ def rule_stale_copies(ctx, rule='R10.10'):
                     if not init:
                         continue
                     src = c04._access_path(init[-1])
+                    i0 = strip(init[-1], casts=True)
+                    if src is None and i0.get('kind') == 'UnaryOperator' and i0.get('opcode') == '*':
+                        # a copy through a pointer to the member struct (ri = &(r->ri_sei); copy = *ri): the paths are
+                        # resolved by type, a pointer to struct reb_integrator_sei names r->ri_sei
+                        from . import c09
+                        bt = qtype(strip(i0['inner'][0], casts=True)).replace('const', '').replace('struct', '').replace('*', '').replace('restrict', '').strip()
+                        host = c09._sim_member_of(bt)
+                        if host and strip(i0['inner'][0], casts=True).get('kind') == 'DeclRefExpr':
+                            copies[d['name']] = ('r.' + host, line_of(d), d.get('id'))
+                        continue
                     if src and src.count('.') == 1 and strip(init[-1], casts=True).get('kind') == 'MemberExpr':
                         copies[d['name']] = (src, line_of(d), d.get('id'))
             if not copies:
